@@ -101,8 +101,16 @@ impl<T: FftNum> AnyPlanner<T> {
         match self {
             AnyPlanner::Auto(_) => None,
             AnyPlanner::Scalar(p) => Some(catch_unwind(AssertUnwindSafe(|| p.verif_design(len))).map_err(panic_msg)),
+            #[cfg(feature = "sse")]
             AnyPlanner::Sse(p) => Some(catch_unwind(AssertUnwindSafe(|| p.verif_design(len))).map_err(panic_msg)),
+            #[cfg(feature = "avx")]
             AnyPlanner::Avx(p) => Some(catch_unwind(AssertUnwindSafe(|| p.verif_plan(len, dir))).map_err(panic_msg)),
+            // a planner that is compiled out can never be constructed, so there is nothing to report
+            #[allow(unreachable_patterns)]
+            _ => {
+                let _ = dir;
+                None
+            }
         }
     }
 }
